@@ -954,4 +954,75 @@ func ruleC17TagNames(p *Prog, a *Anchors, r *Report) {
 	} else {
 		r.OK("removetags:pattern", p.Pos(f.Pos()), "pattern %q agrees with letter(letter|digit)* on %d strings", pat, n)
 	}
+	// "removes only the named tags": what is returned is the input text after removals by the tag expression(s) and
+	// nothing else (no trimming, no other rewriting), and the removal happens in ONE pass over the text — applying one
+	// expression per name in turn lets the removal of one tag assemble another from the text around it
+	// ("<<b>i>" with b,i loses its "<i>", with i,b it keeps it)
+	for _, fn := range clusterOf(p, f, 1) {
+		if fn != f {
+			continue
+		}
+		for _, ret := range returnsOf(f) {
+			if len(ret.Results) < 2 || !isNilConst(res(ret, 1)) {
+				continue
+			}
+			c, ok := res(ret, 0).(*ssa.Call)
+			if !ok || c.Common().StaticCallee() == nil || len(c.Common().Args) != 1 {
+				r.Unk("removetags:only-tags", p.InstrPos(ret), "cannot recognise the value returned")
+				continue
+			}
+			v := c.Common().Args[0]
+			if mi, isMI := v.(*ssa.MakeInterface); isMI {
+				v = mi.X
+			}
+			other, nRepl, inLoopRepl := "", 0, false
+			seen := map[ssa.Value]bool{}
+			var walk func(v ssa.Value)
+			walk = func(v ssa.Value) {
+				if seen[v] {
+					return
+				}
+				seen[v] = true
+				switch x := v.(type) {
+				case *ssa.Phi:
+					for _, e := range x.Edges {
+						walk(e)
+					}
+				case *ssa.Call:
+					cal := x.Common().StaticCallee()
+					switch {
+					case cal != nil && p.extName(cal) == "(*regexp.Regexp).ReplaceAllString":
+						nRepl++
+						if inLoop(x) {
+							inLoopRepl = true
+						}
+						if rs, isC := constString(x.Common().Args[2]); !isC || rs != "" {
+							other = "replacement text " + p.VN(x.Common().Args[2])
+						}
+						walk(x.Common().Args[1])
+					case cal != nil && cal.Name() == "String" && p.InPkg(cal):
+						// in.String(): the input text
+					default:
+						other = p.VN(x)
+					}
+				default:
+					other = p.VN(v)
+				}
+			}
+			walk(v)
+			switch {
+			case other != "":
+				r.Bad("removetags:only-tags", p.InstrPos(ret), "the returned text went through %s besides the removal of the named tags: text that is no tag (surrounding white space) is changed", other)
+			case nRepl == 0:
+				r.Bad("removetags:only-tags", p.InstrPos(ret), "the returned text went through no tag removal")
+			default:
+				r.OK("removetags:only-tags", p.InstrPos(ret), "the returned text is the input after %d removal(s) by expression and nothing else", nRepl)
+			}
+			if inLoopRepl {
+				r.Bad("removetags:single-pass", p.InstrPos(ret), "tags are removed name by name on the already modified text: removing one tag can assemble another named tag from the text around it, and the result depends on the order of the names")
+			} else if nRepl > 0 {
+				r.OK("removetags:single-pass", p.InstrPos(ret), "one pass over the text with one expression")
+			}
+		}
+	}
 }
